@@ -1048,6 +1048,9 @@ func (vc *VC) execInstr(fr *Frame, in ssa.Instruction) {
 		if n > 0 {
 			vc.assume(fmt.Sprintf("(not (= %s 0))", r))
 		}
+		// the window starting at offset 0 is the array itself (a slice of an
+		// array pointer p has array p and offset 0)
+		vc.assume(fmt.Sprintf("(=> (= (s_off %s) 0) (= %s (s_arr %s)))", x.T, r, x.T))
 		fr.vals[in] = &Val{T: r, Ty: in.Type()}
 	case *ssa.MakeInterface:
 		fr.vals[in] = vc.makeInterface(fr, in)
